@@ -15,7 +15,7 @@ CPNAME_BODY = ('{ buf := make([]byte, 12) if _, err := rand.Read(buf); err != ni
                'return fmt.Sprintf("%s:%x", BisyncCheckpointKeyPrefix, buf), nil }')
 
 PROP = {
-    "lean_modules": ["GunYu.Props.C18", "GunYu.Props.C18Nodes"],
+    "lean_modules": ["GunYu.Props.C18", "GunYu.Props.C18Nodes", "GunYu.Props.C18Movable", "GunYu.Props.C18Gen"],
     "audit_namespaces": ["GunYu.Props.C18"],
     "required_theorems": [
         "GunYu.Props.C18.slotTag_hits_slot",
@@ -40,8 +40,36 @@ PROP = {
         "GunYu.Props.C18.txn_flag_never_set",
         "GunYu.Props.C18.unit_single_slot_generated",
         "GunYu.Props.C18.sent_receiver_single_slot_or_nothing_applied",
+        # session 5: Redis's own getkeys procs for the movablekeys commands vs the regenerated keyspec tables
+        "GunYu.Props.C18.movable_numkeys_rows_match_redis",
+        "GunYu.Props.C18.numkeys_extractor_exact",
+        "GunYu.Props.C18.numkeys_extractor_complete",
+        "GunYu.Props.C18.movable_numkeys_keys_exact",
+        "GunYu.Props.C18.movable_numkeys_keys_complete",
+        "GunYu.Props.C18.movable_numkeys_keys_exact_anycase",
+        "GunYu.Props.C18.movable_unit_keys_redis_single_slot",
+        "GunYu.Props.C18.geoScan_eq_geoLoop",
+        "GunYu.Props.C18.geo_keys_exact",
+        "GunYu.Props.C18.geo_keys_complete",
+        "GunYu.Props.C18.geo_last_store_wins",
+        "GunYu.Props.C18.geo_member_named_store_ok",
+        "GunYu.Props.C18.sort_keys_exact",
+        "GunYu.Props.C18.sort_last_store_wins",
+        "GunYu.Props.C18.sort_dest_spelling_option_deferred",
+        "GunYu.Props.C18.xread_group_named_streams",
+        "GunYu.Props.C18.unlisted_movable_no_row",
+        "GunYu.Props.C18.unlisted_movable_static_none",
+        "GunYu.Props.C18.unlisted_movable_resolved_by_target",
+        "GunYu.Props.C18.unlisted_movable_keys_on_slot",
+        "GunYu.Props.C18.unlisted_movable_refused_without_answer",
+        # session 5: the slot-grouping decision of buildBisyncReplayUnitWithMode REGENERATED from the source (Gen/FnBisyncUnitBuild.lean)
+        "GunYu.Props.C18.gen_keyStep_eq_model",
+        "GunYu.Props.C18.gen_keysLoop_eq_model",
+        "GunYu.Props.C18.gen_cmdsLoop_eq_model",
+        "GunYu.Props.C18.gen_initSt_eq_model",
+        "GunYu.Props.C18.gen_buildUnit_eq_model",
     ],
-    "gens": ["c18", "c10", "c13"],
+    "gens": ["c18", "c10", "c13", "c18slot", "c18facts"],
     "expected_facts": {
         "bisync_key_formats": KEY_FORMATS,
         "bisync_slot_tag_format": "slot-%x",
@@ -59,6 +87,19 @@ PROP = {
         # plain replay path (the only code that Puts a literal MULTI / EXEC) is not reached
         "c13_txn_batcher_sites": ["syncer/bisync.go:newBisyncTxnBatcher:conn.NewTxnBatcher()"],
         "c13_aof_dispatch": ["if ro.bisyncEnabled() { return ro.sendAofBisync(ctx, runId, reader, offset, nsize) }", "guard-before-plain-path"],
+        # session 5 (generator c18slot): what the translator of buildBisyncReplayUnitWithMode skipped or classified
+        "c18_build_error_literals": ["empty replay unit", "resolve keys for command(%s) failed: %w", "command(%s) is not slot-routable in scheme1",
+                                     "command(%s) has no routed keys in scheme1", "command(%s) is cross-slot: key(%s) slot(%d) != slot(%d)",
+                                     "no business keys in replay unit"],
+        "c18_build_unit_fields": ["Seq", "StartOffset", "EndOffset", "Slot", "SlotTag", "Digest", "SourceTxn", "Commands"],
+        "c18_build_resolver_default": ["if resolver == nil { resolver = defaultBisyncCommandKeyResolver }"],
+        # session 5 (generator c18facts): the resolver one parser run holds is a function of the command - it writes and indexes
+        # nothing it keeps between two calls (seeded C18-r7-m1: a memo of key positions per name/arity); commandGetKeys asks ONE node
+        "c18_resolver_closure_state": {"calls_of_the_resolver": ["filter.CommandKeys", "getConn", "resolveBisyncCommandKeys"],
+                                       "declared_outside_the_resolver": ["conn", "connErr", "connOnce", "getConn"],
+                                       "indexed_by_the_resolver": [], "written_by_the_resolver": []},
+        "c18_commandgetkeys_calls": {"calls": ["cluster.getRandomNode", "make", "len", "append", "append", "cluster.do", "common.Strings"],
+                                     "loops_or_goroutines": 0},
     },
     "harness": [{"name": "C18", "pkg": "./syncer/", "test": "TestVerifC18"}],
     "driver": "drv_C18",
@@ -96,14 +137,38 @@ PROP = {
             "Oracle shapes: 31 + 50 more written from the command reference (MSETEX numkeys key value…, FCALL_RO, CMS.MERGE / TDIGEST.MERGE, (SINTERSTORE/SDIFFSTORE, RENAMENX, GEOSEARCHSTORE, ZINTERSTORE/ZDIFFSTORE, "
             "GEORADIUSBYMEMBER..STOREDIST, LMPOP/ZMPOP/BLMPOP/BZMPOP, EVALSHA, FCALL, JSON.MSET, XREADGROUP, BRPOPLPUSH, BLMOVE, BRPOP, BZPOPMIN, 25 single-key commands), "
             "lower/upper/mixed-case names; corpus/C18 pins the D1 key and the two seeded-mutation inputs with their key positions. "
+            "Session 5: (a) SEQUENCES through ONE instance of the real newBisyncCommandKeyResolver closure (vf_c18_s5_test.go: 300 sequences of 2-6 transactions over one "
+            "command name and arity, directly through the real builder and 12 through the real parser + the three send loops; corpus/C18/seq pins the seeded r7 inputs), the target's "
+            "COMMAND GETKEYS double answering by layouts whose key positions depend on the CONTENT of the arguments (fall-back kinds nk = dst numkeys key... [options], "
+            "st = key ... STORE dst ..., last STORE wins; same kinds in the Lean driver): every unit judged on the REAL keys (single-slot-unit-refused / unit-accepted-not-single-slot "
+            "/ unit-slot-differs-from-hash-slot) and diffed against the stateless model. (b) C18's OWN parse ops (op c18 parse, 600 streams): the real parseAofReplayUnits in cluster mode "
+            "vs Bisync.parse, and model-independently: the emitted units are exactly the transactions before the first one that must be refused, each on its HASH_SLOT, nothing of "
+            "the refused one or behind it (unit-emitted-at-or-after-refusal), an error iff something is refused. (c) half of the nodes cases run the REAL Cluster.commandGetKeys "
+            "(getRandomNode + do over TCP; the node doubles answer COMMAND GETKEYS themselves, each in its own way, and record who was asked: the model's picks are the OBSERVED nodes; "
+            "all three nodes are asked, in about half of the cases a node other than the receiving one). (d) six more oracle shapes written from Redis's getkeys procs for the movablekeys "
+            "write commands (GEORADIUS / GEORADIUSBYMEMBER with COUNT / ASC before STORE|STOREDIST, SORT with BY nosort / LIMIT / GET # before STORE, ZINTERSTORE with WEIGHTS / AGGREGATE, "
+            "EVAL / LMPOP with trailing arguments that look like keys); the forms on which the tool's extractor and Redis DISAGREED (store option twice, a member spelling an option word: finding C18-F1, "
+            "repaired 975110c) are drawn by the general generator too and pinned as regression cases (corpus/C18/findings); 400 transactions with movablekeys commands the tables have no row for "
+            "(ZUNION / ZINTER / ZDIFF / SINTERCARD / ZINTERCARD / EVAL_RO / EVALSHA_RO: resolved by the target's COMMAND GETKEYS = Redis's genericGetKeys, or refused). (e) a send-loop case is judged when every connection the run opened has been closed (= every lane worker / receiver / parser of it has exited), an explicit "
+            "condition instead of a quiet window. "
             "distinct_nontrivial = distinct accepted single-slot transactions",
     "trusted": ["Redis Cluster HASH_SLOT as transcribed in Model/Slot.lean (C11)",
                 "key positions of the 81 generator command shapes, written from the Redis command reference (harness oracle only)",
-                "COMMAND GETKEYS on the target modelled as an arbitrary function (quantified in the theorems, 5 behaviours in the harness)"],
+                "COMMAND GETKEYS on the target modelled as an arbitrary function (quantified in the theorems, 9 behaviours in the harness: none, error, empty, first, all, numkeys layout, STORE layout, Redis genericGetKeys with the count first / second)",
+                "Model/RedisKeys.lean: transcription of Redis 7.0 src/db.c getkeys procs of the movablekeys commands (genericGetKeys and its instances, sortGetKeys, georadiusGetKeys, "
+                "xreadGetKeys, migrateGetKeys), written from memory of the source (no Redis source in the sandbox); a count argument is read as digits only (anything else makes the real command fail)",
+                "harness/extract/c18slot.go: the dedicated translator of buildBisyncReplayUnitWithMode's control skeleton (closed vocabulary, dies on anything else); error literals classified by substring"],
     "assumptions": ["CLOSED (was: the checkpoint name contains no '{'): unit_single_slot_generated takes a generated name (Bisync.GenCp: NewBisyncCheckpointName for ANY random bytes - modelled, "
                     "Model/BisyncNames.lean newCpName, tied by C13's op `c13 cpname` on the real function - or the two plain-path forms); that a name READ BACK from the checkpoint hash is generated "
                     "is C13 resolved_names_generated (all writers of the hash modelled, source facts c13_cphash_writes / c13_localcheckpoint), given a hash that held generated names before",
-                    "builder, commit order and txnBatcher models tied by correspondence; control-key constructors, marker TTL and the slot-tag table regenerated from source",
+                    "commit order and txnBatcher models tied by correspondence; control-key constructors, marker TTL and the slot-tag table regenerated from source; the BUILDER's slot-grouping "
+                    "decision (initial state from forceSlot, the three resolver guards in source order, first key fixes the slot / compare / refuse, keysSeen, the final guard, Slot / SlotTag / "
+                    "Commands of the result) is REGENERATED from syncer/bisync.go on every run (Gen/FnBisyncUnitBuild.lean, locals resolved by definition not spelling) and proved equal to the "
+                    "hand model for all inputs (gen_buildUnit_eq_model): an edit of a guard breaks the proof, a renamed local or else{if} changes nothing; skipped by the translator and pinned as "
+                    "facts: the nil-resolver default, the error literals, the other fields of the result",
+                    "the resolver of one parser run is a function of the command: source fact c18_resolver_closure_state (what the closure newBisyncCommandKeyResolver returns declares outside "
+                    "itself, writes, indexes and calls) + sequences through one instance; the cluster client's commandGetKeys asks exactly one node per query: source fact c18_commandgetkeys_calls + "
+                    "the real function run against the node doubles",
                     "client_revalidation_agrees is stated for commands chooseNodeWithCmdAndKeys routes by key spec (not PING/CLUSTER/INFO/SELECT/MGET/MSET/MSETNX/MULTI/EXEC; "
                     "MSET/MSETNX are covered by the correspondence ops) and a slot map covering all slots",
                     "CLOSED (was: cluster.transactionEnable outside the model): modelled (Model/ClusterNodes.lean chooseNodeF / txnPutF: set by a literal MULTI, cleared by EXEC, consulted "
@@ -120,8 +185,15 @@ PROP = {
                     "it applies the whole block, OR it applies nothing. Exercised: the node doubles of the nodes cases check blocks with THEIR OWN answer (about 20 receiver refusals per quick run: "
                     "one block, refused whole, commit fails, nothing outside MULTI, no second attempt - monitor best-effort-after-node-refusal); consistent_nodes_every_view_single_slot excludes "
                     "the refusal when answering nodes agree",
-                    "unit_single_slot is relative to the key positions the resolver names (regenerated keyspec tables / COMMAND GETKEYS); that those are Redis's positions is "
-                    "tied by the 81 independently written shapes of the harness oracle and by C10, not proved",
+                    "unit_single_slot is relative to the key positions the resolver names (regenerated keyspec tables / COMMAND GETKEYS). NARROWED in session 5: for the 11 numkeys rows of the "
+                    "regenerated extractor table (eval, evalsha, fcall, fcall_ro, zunionstore, zinterstore, zdiffstore, zmpop, bzmpop, lmpop, blmpop) movable_numkeys_keys_exact / _complete prove "
+                    "that the tool's positions ARE the positions Redis's genericGetKeys instance names (same members, both directions, all argument lists, any letter case), and "
+                    "movable_unit_keys_redis_single_slot transfers unit_single_slot to the keys REDIS names; GEORADIUS* (after repair 975110c): geo_keys_exact / "
+                    "geo_keys_complete - the tool's positions are Redis's for ALL argument lists; SORT: sort_keys_exact - whenever the tool's extractor answers, its positions are Redis's (it declines "
+                    "for BY / GET patterns that bring in other keys, a destination spelling an option word, no STORE: then Redis itself is asked). "
+                    "REFUTED where false: xread_group_named_streams (XREADGROUP with a group or consumer literally named `streams`: the tool names the consumer and the word STREAMS; not reachable from a "
+                    "replication stream, Redis propagates XREADGROUP as XCLAIM / XGROUP SETID). For the fixed first/last/step rows and the other "
+                    "extractors the positions stay tied by the 87 independently written oracle shapes and by C10, not proved",
                     "`replayUnit … = none` / `wire … = error` (unroutable_refused_before_send 2nd conjunct, client_refusal_sends_nothing) restate how the model composes builder "
                     "and client; that the CODE sends nothing is what refused_txn_emits_nothing (parser model, tied by C13's parse ops) and the loop monitors establish",
                     "CMS.MERGE / TDIGEST.MERGE: the oracle names the DESTINATION as the only key, as the modules declare it (first=last=1) and as COMMAND GETKEYS and a cluster "
@@ -131,8 +203,10 @@ PROP = {
                     "as loop_parallel_lane_overtake): the property speaks of the refused transaction itself, of which nothing is sent",
                     "the send-loop cases run in real time (TCP node doubles): a run ends when the loop returns or when the nodes hold every block a correct run delivers "
                     "(blocks are matched to their case by the run id in the marker, so a lane worker of an earlier case cannot pollute a later one or take its armed fault); "
-                    "no monitor depends on a block being absent at a point in time except after that explicit wait; a run that reaches neither condition in 20 s is retried once "
-                    "and only judged if it stalls again (counted loop_stalled_retry / loop_stalled_twice)"],
+                    "a case is JUDGED when every connection the run opened has been closed (counted loop_run_joined_all_connections_closed: all 120 of a quick run) - the loops close a "
+                    "connection only after the goroutines using it have exited and a node records a block before it answers EXEC, so everything the run can send has been recorded; "
+                    "a run that reaches neither condition in 20 s is retried once and only judged if it stalls again (counted loop_stalled_retry / loop_stalled_twice); a run whose "
+                    "connections are not all closed within the limit falls back to a quiet window and is counted (loop_run_not_joined; never seen)"],
     "partial": ["CLOSED (was: rdb_unit_single_slot assumes hk): rdb_unit_single_slot_built takes the command list buildBisyncRdbReplayUnit assembles — modelled (rdbCommands: "
                 "RESTORE form with IDLETIME/FREQ (target >= 5, non-zero) and REPLACE iff keyExists=replace; expanded form = the object parser's commands with names lower-cased and the "
                 "source key rewritten to the target key at the static tables' key positions (rewriteBisyncRdbCommandKeys), `del <target>` prefix iff first bin and keyExists=replace, "
@@ -146,10 +220,25 @@ PROP = {
                 "the key SECOND); module values take the RESTORE form or fail; that the emitted commands ARE on the entry's key is observed per unit by the monitor rdb-command-off-target-key "
                 "with key positions written from the command reference (cross-checked with the tool's tables: rdb-key-positions-differ), not proved about pkg/rdb (C20 / C03)",
                 "useRestore is an input of the op (the real bisyncRdbUseRestore decides it; C20 models that decision); argument formatting of non-byte values (float scores) is the tool's own",
-                "refused_txn_emits_nothing is a statement about the parser MODEL (Bisync.parse); the model is tied to parseAofReplayUnits by C13's parse ops (cluster mode "
-                "included), not by C18's own harness: C18's 'refusal emits nothing' rests on C13 passing too, plus the loop monitors here",
-                "a late block of a lane worker (parallel mode) that lands after the case's settle window is dropped by run id and cannot be judged (sent-after-refusal for a slow "
-                "lane is timing-dependent in the safe direction); such blocks are counted (loop_late_blocks_of_earlier_case) so that a change that merely delays a forbidden block shows in the evidence",
+                "CLOSED (was: refused_txn_emits_nothing tied by C13's parse ops only): C18 runs its own parse ops (op c18 parse: the real parseAofReplayUnits in cluster mode, its own resolver "
+                "closure, 8 fall-back kinds, transactions and wrapped singles vs Bisync.parse evaluated by drv_C18) and judges 'nothing of a refused transaction or behind it is emitted' "
+                "on the real parser independently of the model; no key filter / db blacklist in these streams (C13's ops cover those)",
+                "CLOSED (was: a late block of a lane worker dropped by run id, judged only inside a settle window): a case is judged after every connection of the run has been closed "
+                "(explicit join, see assumptions); real time, not synctest - the TCP node doubles cannot live in a bubble - but no verdict depends on a window any more; late blocks of an "
+                "earlier case would still be counted (loop_late_blocks_of_earlier_case: 0 in every run)",
+                "CLOSED (was: KNOWN FINDING C18-F1): keyspec's GEORADIUS* / SORT extractors now name the keys Redis's getkeys procs name (/repo 975110c, one `fix:` commit after the C10 owner "
+                "had finished; unedited suite passes): last STORE / STOREDIST, option words only behind the fixed arguments, LIMIT's arguments stepped over, a SORT destination spelling an option "
+                "word left to COMMAND GETKEYS. Model/Filter.lean geoLoop / sortLoop re-transcribed, Proofs/FilterKeys re-proved (every C10 theorem still proved), six golden rows in C10's oracle; "
+                "the refutations became geo_keys_exact / geo_keys_complete / sort_keys_exact (all argument lists); the former witnesses run as regression cases (corpus/C18/findings) and the general "
+                "generator draws those forms",
+                "Model/RedisKeys.lean covers the movablekeys commands only. Rows the tool's table has: proved equal (numkeys family, GEORADIUS*, SORT) or refuted (XREADGROUP with a group named "
+                "`streams`). NO row (eval_ro / evalsha_ro, zunion / zinter / zdiff, sintercard / zintercard, xread, migrate, sort_ro): unlisted_movable_* prove over the regenerated tables that the static "
+                "tables never answer for them, that the resolver's verdict is the target's COMMAND GETKEYS answer, and that a built unit has every key the target named on its slot - refused when the "
+                "target names none; 400 cases per quick run (fall-backs n0 / n1 = Redis's genericGetKeys written independently in Go vs Model/RedisKeys.genericGetKeys in the driver; about half accepted, "
+                "a third not routable, the rest cross-slot). xread / migrate / sort_ro have no harness case (read-only or never propagated); msetex (Redis 8, step 2) has no Redis-side transcription",
+                "the extractor BODIES (numkeysStepExtractor, sortExtractor, geoRadiusStoreExtractor, streamsExtractor, CommandKeyIndexes) are hand-transcribed in Model/Filter.lean and tied by "
+                "C10's correspondence ops and C18's builder ops, not regenerated: gofn lacks strings.EqualFold / ToLower, closures returned from functions and a for-loop whose body advances "
+                "the loop variable (requested from the coordinator)",
                 "unit-accepted-undetermined (a command for which the resolver names NO key inside an otherwise single-slot transaction must be refused) is exercised with a custom "
                 "resolver only: the tool's own resolver never answers 'ok, no keys' (tables name >= 1 key or decline; an empty COMMAND GETKEYS answer is 'not routable')",
                 "a plain EOF that sendAofBisync reports as nil is counted (loop_eof_reported_as_nil), not judged: the property needs an error REPORTED when a unit is refused "
@@ -157,9 +246,11 @@ PROP = {
                 "./check C18 --replay FILE re-runs the one loop case / snapshot unit / command list (build + txn + replay ops, 24 draws of commit kind and slot-map hole) the file "
                 "describes (a nodes case: the nodes' answers, visiting order and draws of the file, 6 draws of the commit kind); files of the table and wiring checks (slot tags, control keys, "
                 "names) carry no input and re-run the whole suite",
-                "nodes cases: the cluster client's COMMAND GETKEYS is the harness hook commandGetKeysFn answering per drawn node (the real commandGetKeys = getRandomNode + do is not run; that it "
-                "asks ONE node is read from the code); the builder side runs the real resolveBisyncCommandKeys over an introspector double (the real Cluster.IterateNodes visits a Go map: any order, "
-                "the model quantifies over the order); node kinds: keys = first argument / all arguments, none, empty reply, error reply, undecodable reply"],
+                "nodes cases: half run the REAL commandGetKeys (getRandomNode + do over TCP, the node asked observed at the doubles and fed to the model as its pick), half the hook "
+                "commandGetKeysFn with drawn picks (so that pick sequences getRandomNode's generator does not produce are covered too); that exactly ONE node is asked is now the source fact "
+                "c18_commandgetkeys_calls and the monitor tie-shape:more-getkeys-queries-than-commands; the builder side runs the real resolveBisyncCommandKeys over an introspector double "
+                "(the real Cluster.IterateNodes visits a Go map: any order, the model quantifies over the order); node kinds: keys = first argument / all arguments, none, empty reply, error reply, "
+                "undecodable reply; a nil (null array) reply is not a node kind (rediscommon.Strings answers ErrNil: an error, like the error reply)"],
 }
 
 MANIFEST = {
@@ -168,7 +259,9 @@ MANIFEST = {
             "in the kernel) on one HASH_SLOT; undetermined keys or two slots => error and no request; routable single-slot lists are never refused; the "
             "cluster client's txnBatcher accepts exactly what the builder accepts and the committed transaction goes out as one MULTI block; with nodes that answer COMMAND GETKEYS "
             "differently or with errors (any answers, any visiting order, any node per query) a unit is still sent only if it is single-slot in every view that was consulted and refused before "
-            "anything is on the wire otherwise; the cluster client's transaction flag is modelled and never set by the bidirectional path. Tied to the "
+            "anything is on the wire otherwise; the cluster client's transaction flag is modelled and never set by the bidirectional path; for the numkeys commands Redis flags movablekeys the tool's key positions are "
+            "proved to be the positions Redis's own getkeys procs name (transcribed), so the unit is single-slot in REDIS's keys; the builder's slot-grouping decision is regenerated from the "
+            "source and proved equal to the model. Tied to the "
             "code by differential correspondence and by an end-to-end run through the real batcher/TCP into slot-recording node doubles with an "
             "independent bitwise HASH_SLOT oracle.",
     "note": "trusted: Lean kernel, HASH_SLOT transcription (C11), extractor, harness oracle's command shapes; hand-written models tied by correspondence",
